@@ -92,6 +92,19 @@ CLAIMED.update({
     ref="DESIGN.md §4 C10"),
 })
 
+CLAIMED.update({
+  "C06": dict(
+    text="Crash clause only, decided by static obligation classes over every function of the packages below the UI: K1 every type assertion is comma-ok or provably holds; K2 every dereference of the value of a value+Err pair is dominated by its error being nil and every producer stored into a pair is shown to return non-nil with a nil error (including slices whose every slot is filled by a checked constructor); K3 every strings.Repeat count, make size, non-constant index and slice bound that can depend on a width parameter or link number (forward value flow from all String/Preview/Render/SelectLink parameters) is proven in range from branch facts by a linear-inequality prover; K4 every index into a regexp match is checked against the pattern's capture structure (regexp/syntax) and shown guarded by a length test, a total pattern or FindAll, and first-rune extraction only on non-empty captures; K5 every explicit panic is discharged (non-negative labels into superscript, accepted Activity kinds ⊆ rendered kinds, non-nil harvest receivers, non-nil NewFailure arguments); K7 every call-graph SCC is in a table of recursions with a checked termination measure. The hang / resource clause is NOT claimed.",
+    note="Not decided: the hang/memory clause (cost of nested indenting blocks — the property text records that the tree violates it with ~82 nested blockquotes; no sound static cost analysis is in reach), nil dereferences outside K2/K6, and ~15 bounds checks resting on relational invariants, listed in the evidence as unclaimed sites. K6 (typed nil) is decided under C11.R1.",
+    technique="static may-panic site enumeration with per-class discharge: branch facts + linear inequalities, regexp/syntax shape analysis, nil-flow, call-graph SCC table",
+    ref="DESIGN.md §4 C06"),
+  "C07": dict(
+    text="Dispatcher coverage and crash obligations, decided statically: the keys documented in readme.md and in the help text are extracted and compared with the constants Update's dispatcher tests, and each documented key's case body is shown to call what the keymap names (swapped handlers are reported); every explicit panic in ui/feed/history is enumerated and must be one of the discharged ones — view's mode default (constants stored to State.mode ⊆ handled), switchTo's default (every argument's dynamic types handled and non-nil), feed.Get (dominated by Contains of the same offset on the same feed) — ReplaceLastLine is shown to receive only SetLength output; results of the unguarded accessor feed.Current() are shown to be nil-checked before being used as receiver or passed to switchTo; Update is shown to return before touching state while loading. Refinement of the keymap over histories is NOT claimed.",
+    note="Not decided: that cursor/page/mode after an arbitrary key history equal the keymap's prediction, quiescence, History.Current on an empty history (mode/history invariant).",
+    technique="static table agreement (documented keymap vs dispatcher), exhaustive panic enumeration with discharge, nil-guard dominance",
+    ref="DESIGN.md §4 C07"),
+})
+
 NOT_APPLICABLE = {
   "C13": "content preservation / line-length bounds of Wrap, DumbWrap, Pad, Indent, Snip are relations between input and output string values for all strings and widths; no sound static argument over the code's shape decides them (DESIGN.md §5)",
   "C14": "per-character attribute sets after arbitrary nesting and layout are string values; the structural facts available (single SGR emitter) are not necessary conditions of this property (DESIGN.md §5)",
